@@ -26,7 +26,11 @@ IDS = [
     "C16 unchanged Package is re-pulled, re-rendered or its ObjectDeployment rewritten",
     "C16 changed spec does not result in an ObjectDeployment template equal to a fresh render",
     "C16 stored ObjectDeployment template is not the render of a valid, admissible spec",
+    "C16 status.unpackedHash records a spec whose render is not what the ObjectDeployment stores",
 ]
+ID_SCOPE = ("C16 uniqueInScope is judged against every (Cluster)Package of the cluster "
+            "(validateUnique drops its label selector and does not restrict the List to the namespace)")
+ID_PANIC = "C16 package controller panics"
 
 # ------------------------------------------------------------------ packages
 SCHEMA = """  config:
@@ -42,7 +46,7 @@ SCHEMA = """  config:
 """
 
 
-def manifest(name, scopes="[Namespaced]", phases=("deploy",), schema=True, constraints=None, components=False,
+def manifest(name, scopes="[Namespaced, Cluster]", phases=("deploy",), schema=True, constraints=None, components=False,
              images=None):
     m = ["apiVersion: manifests.package-operator.run/v1alpha1", "kind: PackageManifest", "metadata:",
          "  name: %s" % name, "spec:", "  scopes: %s" % scopes, "  phases:"]
@@ -91,9 +95,10 @@ class Image:
     """An image class: its files and what the generator built it to do at each stage."""
 
     def __init__(self, name, files, load=True, render=True, images=True, schema=True, constraints=(),
-                 components=None, mname="demo"):
+                 components=None, mname="demo", scopes=("Namespaced", "Cluster")):
         self.name, self.files = name, files
         self.load, self.render, self.images, self.schema = load, render, images, schema
+        self.scopes = scopes  # installing in another scope is rejected by the deployer's scope validator
         self.constraints = list(constraints)
         self.components = components  # None = single-component package, else list of component names
         self.mname = mname
@@ -105,7 +110,7 @@ def image_pool():
     def single(name, **kw):
         mk = dict(kw)
         man = manifest("demo", schema=mk.pop("schema", True), constraints=mk.pop("constraints", None),
-                       scopes=mk.pop("scopes", "[Namespaced]"), phases=mk.pop("phases", ("deploy",)),
+                       scopes=mk.pop("scopes", "[Namespaced, Cluster]"), phases=mk.pop("phases", ("deploy",)),
                        images=mk.get("imgs"))
         files = {"manifest.yaml": man, "cm.yaml.gotmpl": configmap(name, phase=mk.pop("objphase", "deploy"),
                                                                    anno=mk.pop("anno", True), schema=kw.get("schema", True))}
@@ -132,7 +137,8 @@ def image_pool():
     # structural / object validation errors (render stage)
     pool.append(Image("noanno", single("noanno", anno=False), render=False))
     pool.append(Image("missingphase", single("missingphase", objphase="nope"), render=False))
-    pool.append(Image("clusteronly", single("clusteronly", scopes="[Cluster]"), render=False))
+    pool.append(Image("clusteronly", single("clusteronly", scopes="[Cluster]"), scopes=("Cluster",)))
+    pool.append(Image("nsonly", single("nsonly", scopes="[Namespaced]"), scopes=("Namespaced",)))
     pool.append(Image("dupphase", single("dupphase", phases=("deploy", "deploy")), render=False))
     # unusable lock file image reference
     pool.append(Image("badlock", single("badlock", imgs=[("app", "Not A Reference!!")]), images=False))
@@ -160,7 +166,7 @@ def image_pool():
 
 POOL = image_pool()
 VALID = ["good", "good2", "noschema", "locked", "multi"]
-INVALID = ["nomanifest", "badyaml", "badkind", "noanno", "missingphase", "clusteronly", "dupphase", "badlock"]
+INVALID = ["nomanifest", "badyaml", "badkind", "noanno", "missingphase", "clusteronly", "nsonly", "dupphase", "badlock"]
 CONS = ["c-platform", "c-kube", "c-kube-lo", "c-ocp", "c-both", "c-unique", "c-unique-ocp", "c-badrange", "c-platform-noanno"]
 
 # no {}: the recording server does not see an edit between an absent and an empty config as a spec change
@@ -224,22 +230,19 @@ def oracle(sc, spec, pull_fail):
             if v < lo:
                 o["unmet"].append("KKubeVersion" if c[1] == "Kubernetes" else "KOpenShiftVersion")
     if any(c[0] == "unique" for c in cons):
-        if SELECTOR_DROPPED:
-            # deployer.go:286-291 builds a label selector and drops it (the result of Selector.Add is ignored):
-            # the List returns every Package of the cluster
-            n = len(sc["others"]) + 1
-        else:
-            n = sum(1 for p in sc["others"] if p["labels"].get("package-operator.run/package") == mname)
-            if sc["package"]["labels"].get("package-operator.run/package") == mname:
-                n += 1
-        o["unique"] = n
+        # what the constraint says: the (Cluster)Packages carrying the manifest's package label in the scope of the
+        # Package, itself included if labelled.  (The Coq model computes the number the List returns from the peers.)
+        ps = sc["peers"]
+        o["unique"] = ps["same"] + (1 if ps["labelled"] else 0)
     o["config"] = config_class(spec.get("config"), img.schema)
-    o["images"], o["render"] = img.images, img.render
+    o["images"] = img.images
+    o["render"] = img.render and ("Cluster" if sc.get("cluster") else "Namespaced") in img.scopes
     return o
 
 
-# How validateUnique's List selects Packages; decided per run from a witness scenario (see check()).
-SELECTOR_DROPPED = True
+# Which (Cluster)Packages validateUnique's List returns in the implementation under test: True = the labelled ones
+# of the scope; False = all of them (the code as it is).  Decided per run from a witness scenario (see check()).
+SCOPED = False
 
 
 def stage_of(o):
@@ -276,14 +279,23 @@ def spec(image, config=None, component="", paused=False):
     return s
 
 
-def scenario(env, first, steps, labelled=False, others=0, others_label="demo"):
+def scenario(env, first, steps, labelled=True, others=0, elsewhere=0, unrelated=0, cluster=False):
+    """others: other (Cluster)Packages carrying the label of manifest `demo` in the same scope; elsewhere: the same in
+    another namespace (Package flavour only); unrelated: other (Cluster)Packages without that label."""
     used = {first["image"]} | {s["image"] for s in steps if s["op"] == "edit"}
-    sc = {"images": {n: {"files": POOL[n].files} for n in sorted(used) if n in POOL},
+    if cluster:
+        elsewhere = 0
+    lab = {"package-operator.run/package": "demo"}
+    peers = ([{"name": "same%d" % i, "namespace": "ns", "labels": lab} for i in range(others)] +
+             [{"name": "else%d" % i, "namespace": "elsewhere", "labels": lab} for i in range(elsewhere)] +
+             [{"name": "unrel%d" % i, "namespace": "ns" if i % 2 == 0 else "elsewhere",
+               "labels": {"package-operator.run/package": "another"} if i % 2 else {}} for i in range(unrelated)])
+    sc = {"cluster": cluster,
+          "images": {n: {"files": POOL[n].files} for n in sorted(used) if n in POOL},
           "environment": env,
-          "others": [{"name": "other%d" % i, "namespace": "ns" if i % 2 == 0 else "elsewhere",
-                      "labels": {"package-operator.run/package": others_label}} for i in range(others)],
-          "package": dict(name="p", namespace="ns",
-                          labels={"package-operator.run/package": "demo"} if labelled else {}, **first),
+          "others": peers,
+          "peers": {"same": others, "elsewhere": elsewhere, "unrelated": unrelated, "labelled": labelled},
+          "package": dict(name="p", namespace="" if cluster else "ns", labels=lab if labelled else {}, **first),
           "steps": steps}
     return sc
 
@@ -308,19 +320,69 @@ def touch(n):
 WITNESS = scenario(ENVS[0], spec("c-both", {"x": "a"}), [PASS, PASS])
 
 
-def corpus():
-    out = [WITNESS]
-    e0, e3 = ENVS[0], ENVS[3]
-    # every image class on every environment, two passes (the second shows retry or short cut)
-    for env in ENVS:
+def classes():
+    """Every image class, two passes (the second shows retry or short cut): both flavours on the plain Kubernetes
+    environment, the constraint classes on every environment."""
+    out = []
+    for cluster in (False, True):
         for name in VALID + INVALID + CONS:
-            out.append(scenario(env, spec(name, {"x": "a"}), [PASS, PASS], labelled=True))
-    # uniqueness against 0 / 1 / 2 / 3 labelled packages
-    for labelled in (False, True):
-        for others in (0, 1, 2):
-            out.append(scenario(e0, spec("c-unique", None), [PASS, PASS], labelled=labelled, others=others))
-            out.append(scenario(e0, spec("c-unique-ocp", None), [PASS], labelled=labelled, others=others))
-    out.append(scenario(e0, spec("c-unique", None), [PASS], labelled=True, others=2, others_label="somethingelse"))
+            out.append(scenario(ENVS[0], spec(name, {"x": "a"}), [PASS, PASS], cluster=cluster))
+    for env in ENVS[1:]:
+        for name in CONS:
+            out.append(scenario(env, spec(name, {"x": "a"}), [PASS, PASS]))
+            if env is not ENVS[4]:
+                out.append(scenario(env, spec(name, {"x": "a"}), [PASS], cluster=True))
+        for name in VALID[:2] + INVALID[:2]:
+            out.append(scenario(env, spec(name, {"x": "a"}), [PASS, PASS]))
+    return out
+
+
+def unique_sweep():
+    """uniqueInScope (alone and together with a platform constraint) against 0 / 1 / 2 other packages of the same
+    manifest in the same scope, 0 / 1 / 2 in another namespace, 0 / 1 strangers, Package labelled or not; both flavours;
+    an API fault on the List and at every other request of such a deployment."""
+    out = []
+    e0, e2 = ENVS[0], ENVS[2]
+    for cluster in (False, True):
+        for name, env in (("c-unique", e0), ("c-unique-ocp", e0), ("c-unique-ocp", e2)):
+            for labelled in (True, False):
+                for same in (0, 1, 2):
+                    for elsewhere in ((0,) if cluster else (0, 1, 2)):
+                        for unrelated in (0, 1):
+                            if name != "c-unique" and (elsewhere == 2 or (not labelled and unrelated)):
+                                continue
+                            out.append(scenario(env, spec(name, None), [PASS, PASS], labelled=labelled, others=same,
+                                                elsewhere=elsewhere, unrelated=unrelated, cluster=cluster))
+        for kind in ("err", "lost"):
+            for n in range(13):
+                out.append(scenario(e0, spec("c-unique", None), [fault(n, kind), PASS, PASS], cluster=cluster))
+            out.append(scenario(e0, spec("c-unique", None), [fault(2, kind), PASS, PASS], others=1, cluster=cluster))
+        # a valid deployment, then a second package of the same manifest appears only for the next spec
+        out.append(scenario(e0, spec("good", None), [PASS, edit(spec("c-unique", None)), PASS, PASS], others=1, cluster=cluster))
+    return out
+
+
+def faults_after_pull():
+    """An err / lost API fault at every request of a first deployment and of an update, both flavours, followed by
+    clean passes: whatever the pass persisted must fit what it stored."""
+    out = []
+    e0 = ENVS[0]
+    g, g2 = spec("good", {"x": "a"}), spec("good2", {"x": "a"})
+    for cluster in (False, True):
+        for kind in ("err", "lost"):
+            for n in range(12):
+                out.append(scenario(e0, g, [fault(n, kind), PASS, PASS, PASS], cluster=cluster))
+                if n < 9:
+                    out.append(scenario(e0, g, [PASS, edit(g2), fault(n, kind), PASS, PASS], cluster=cluster))
+                    # ... and the user goes back to the old spec before the retry (C16_hash_fit_refuted: for n = 4 the
+                    # short cut keeps the new spec's render under the old spec's hash; model and code agree on it)
+                    out.append(scenario(e0, g, [PASS, edit(g2), fault(n, kind), PASS, edit(g), PASS, PASS], cluster=cluster))
+    return out
+
+
+def corpus():
+    out = []
+    e0, e3 = ENVS[0], ENVS[3]
     # every config on a valid package, then a valid one
     for cfg in CONFIGS:
         out.append(scenario(e0, spec("good", cfg), [PASS, edit(spec("good", {"x": "b"})), PASS, PASS]))
@@ -358,7 +420,7 @@ def corpus():
             out.append(scenario(e0, spec("nomanifest", None), [fault(n, kind), PASS, PASS]))
             out.append(scenario(e0, g, [PASS, edit(gp), fault(n, kind), PASS, PASS]))
         for n in range(13):
-            out.append(scenario(e0, spec("c-unique", None), [fault(n, kind), PASS, PASS], labelled=True))
+            out.append(scenario(e0, spec("multi", {"x": "a"}, "a"), [fault(n, kind), PASS, PASS], cluster=True))
             out.append(scenario(e0, spec("c-platform", None), [fault(n, kind), PASS, PASS]))
     return out
 
@@ -374,7 +436,8 @@ def touch_sweep():
         out.append(scenario(e0, g, [touch(n), PASS, PASS]))                                   # first deployment
         out.append(scenario(e0, g, [PASS, edit(g2), touch(n), PASS, PASS]))                   # changed spec over an existing one
         out.append(scenario(e0, g, [PASS, edit(gp), PASS, edit(g2), touch(n), PASS, PASS]))   # unpause + changed spec
-        out.append(scenario(e0, u, [PASS, edit(u2), touch(n), PASS, PASS], labelled=True))    # with the uniqueness List
+        out.append(scenario(e0, u, [PASS, edit(u2), touch(n), PASS, PASS]))                   # with the uniqueness List
+        out.append(scenario(e0, g, [PASS, edit(g2), touch(n), PASS, PASS], cluster=True))     # ClusterPackage
         out.append(scenario(e0, g, [PASS, edit(g2), touch(n), touch(n + 2), PASS, PASS]))     # two Conflicts in a row
         out.append(scenario(e0, g, [PASS, edit(gp), touch(n), PASS, PASS]))                   # pause propagation
     # retry budget: 4 Conflicts (fifth attempt succeeds), 5 Conflicts (given up), then a clean pass
@@ -445,27 +508,31 @@ def random_scenario(r):
             steps.append(PULLFAIL if r.random() < 0.12 else PASS)
     if not any(s["op"] == "pass" for s in steps):
         steps.append(PASS)
-    return scenario(env, first, steps, labelled=r.random() < 0.6, others=r.choice([0, 0, 0, 1, 2]))
+    return scenario(env, first, steps, labelled=r.random() < 0.8, others=r.choice([0, 0, 0, 1, 2]),
+                    elsewhere=r.choice([0, 0, 1]), unrelated=r.choice([0, 0, 1]), cluster=r.random() < 0.3)
 
 
 def gen(seed, tier):
     r = vlib.rng(seed, "C16")
-    out = corpus()
-    n = 260 if tier == "quick" else 3600
+    fixed = [WITNESS] + classes() + unique_sweep() + faults_after_pull() + touch_sweep()
+    rest = corpus()
     if tier == "quick":
-        # keep the whole witness/class/constraint part of the corpus, sample the fault sweep, fill up with random histories
-        head, tail = out[:1 + len(ENVS) * len(VALID + INVALID + CONS)], out[1 + len(ENVS) * len(VALID + INVALID + CONS):]
-        keep = [WITNESS] + [s for i, s in enumerate(head[1:]) if i % 5 == (i // 5) % 5 or s["package"]["image"] in CONS[:5]]
-        out = keep + r.sample(tail, min(len(tail), 70)) + touch_sweep()
+        out = fixed + r.sample(rest, min(len(rest), 60))
+        n = len(out) + 60
     else:
-        out += touch_sweep() + touch_fault_sweep()
+        out = fixed + rest + touch_fault_sweep()
+        n = max(4000, len(out) + 1500)
     while len(out) < n:
         out.append(random_scenario(r))
     return out
 
 
 # ------------------------------------------------------------------ Coq terms
-REQ = {("get", "Package"): "KGetPkg", ("get", "ObjectDeployment"): "KGetOD", ("update", "ObjectDeployment"): "KUpdateOD",
+REQ = {("get", "ClusterPackage"): "KGetPkg", ("get", "ClusterObjectDeployment"): "KGetOD",
+       ("update", "ClusterObjectDeployment"): "KUpdateOD", ("list", "ClusterPackage"): "KListPkg",
+       ("create", "ClusterObjectDeployment"): "KCreateOD", ("list", "ClusterObjectSet"): "KListSet",
+       ("list", "ClusterObjectSlice"): "KListSlice", ("status-update", "ClusterPackage"): "KStatus",
+       ("get", "Package"): "KGetPkg", ("get", "ObjectDeployment"): "KGetOD", ("update", "ObjectDeployment"): "KUpdateOD",
        ("list", "Package"): "KListPkg", ("create", "ObjectDeployment"): "KCreateOD", ("list", "ObjectSet"): "KListSet",
        ("list", "ObjectSlice"): "KListSlice", ("status-update", "Package"): "KStatus"}
 # the recording server reports a fault injected before the effect as Internal, a lost response as InjectedFault
@@ -575,7 +642,9 @@ def build_case(sc, obs):
                 cL(evs), cB(p["err"] != ""), cB(p["requeue"]), cO(h), cL(conds), cO(od), p["pulls"]))
             info.append((t, o, p))
     dt = cL(["(%d, %d, %d, %d)" % (k[0], k[1], k[2], d) for k, d in sorted(dtable.items())])
-    term = "((%s, %s, %s, %s) : case)" % (dt, c_spec(first), cL(steps), cL(obss))
+    ps = sc["peers"]
+    peers = "(Build_peers %d %d %d %s)" % (ps["same"], ps["elsewhere"], ps["unrelated"], cB(ps["labelled"]))
+    term = "((%s, %s, %s, %s, %s, %s) : case)" % (cB(SCOPED), dt, c_spec(first), peers, cL(steps), cL(obss))
     return term, info
 
 
@@ -615,26 +684,32 @@ def check(run, tier, seed, replay=None):
         "ObjectDeployment has no status conditions; the Package is never deleted; no HyperShift environment",
         "template identity = sha256 of the canonical JSON of spec.template.spec, compared with the reference render",
         "client and uncachedClient are the same recording API server (no stale cache)",
+        "uniqueInScope is judged by the property over the (Cluster)Packages that carry the manifest's package label in the scope "
+        "of the Package (its namespace / the cluster), the Package itself included if labelled: 0 = cannot be evaluated, 1 = met, "
+        ">= 2 = unmet; all unique-constrained manifests of a scenario are named `demo`",
     ]
     vlib.std_proof_stage(run, "C16")
     ok, blog = vlib.build_harness()
     if not ok:
         run.violation("corr:harness-build", {"correspondence": "harness no longer builds against the tree", "log": blog[-4000:]}, False)
         return
-    global SELECTOR_DROPPED
-    ws = vlib.run_harness("package", [scenario(ENVS[0], spec("c-unique", None), [PASS])])[0]
+    global SCOPED
+    ws = vlib.run_harness("package", [scenario(ENVS[0], spec("c-unique", None), [PASS], labelled=False)])[0]
     if "obs" not in ws:
         run.violation("corr:C16/witness harness error", {"out": ws}, False)
         return
-    SELECTOR_DROPPED = ws["obs"]["passes"][0]["err"] == ""
+    SCOPED = ws["obs"]["passes"][0]["err"] != ""
     run.notes.append("validateUnique's List %s (witness: unlabelled Package with uniqueInScope, no other Package -> %s)" % (
-        "ignores the package label selector: labels.Selector.Add returns a new selector and deployer.go:291 drops it, so "
-        "uniqueness is judged against every Package of the cluster" if SELECTOR_DROPPED else "applies the package label selector",
-        "pass succeeds" if SELECTOR_DROPPED else "ErrNonExisting"))
+        "applies the package label selector" if SCOPED else
+        "ignores the package label selector: labels.Selector.Add returns a new selector and deployer.go drops it, so "
+        "uniqueness is judged against every Package of the cluster", "ErrNonExisting" if SCOPED else "pass succeeds"))
     scs = [json.load(open(replay))["replay"]["scenario"]] if replay else gen(seed, tier)
     outs = vlib.run_harness("package", scs, par=8)
     terms, idx, infos = [], [], {}
     for i, (sc, o) in enumerate(zip(scs, outs)):
+        if "panic" in o:
+            run.violation(ID_PANIC, {"scenario": sc, "panic": o["panic"], "stack": o.get("stack", "")[-3000:]}, True)
+            continue
         if "obs" not in o:
             run.violation("corr:C16/package harness error", {"scenario": sc, "out": o}, False)
             continue
@@ -654,7 +729,7 @@ def check(run, tier, seed, replay=None):
         terms.append(term)
         idx.append(i)
         infos[i] = info
-    res, logs = vlib.judge_cases("C16", IMPORTS, "judge", terms, 9, shard=100)
+    res, logs = vlib.judge_cases("C16", IMPORTS, "judge", terms, 11, shard=100)
     for l in logs:
         run.violation("corr:C16/coq-eval", {"correspondence": "coq evaluation failed", "log": l}, False)
     run.cov["evaluations"] = len(terms)
@@ -674,12 +749,19 @@ def check(run, tier, seed, replay=None):
             nconf += any(e.get("err") == "Conflict" for e in p["events"])
         if len(info) >= 2 or any(stage_of(o) != "ok" for _, o, _ in info):
             run.classes.add(sig)
-        agree, mons = r[0], r[1:]
+        agree, mons, unscoped_ok = r[0], r[1:10], r[10]
         concrete = False
+        if not all(mons) and unscoped_ok:
+            # every clause holds once uniqueness is judged the way the implementation judges it (over every
+            # (Cluster)Package): the verdict is due to the scope of validateUnique's List and nothing else
+            concrete = True
+            run.violation(ID_SCOPE, {"scenario": sc, "impl": obs, "oracles": [o for _, o, _ in info],
+                                     "failing_clauses": [IDS[k] for k, okk in enumerate(mons) if not okk]}, True)
+            mons = [True] * 9
         for k, okk in enumerate(mons):
             if okk:
                 continue
-            if k == 7 and not (mons[2] and mons[3] and mons[4] and mons[6]):
+            if k == 7 and not (mons[2] and mons[3] and mons[4] and mons[6] and mons[8]):
                 continue  # the stored template is the one another failing clause let through: reported once
             concrete = True
             run.violation(IDS[k], {"scenario": sc, "impl": obs, "oracles": [o for _, o, _ in info]}, True)
@@ -695,7 +777,10 @@ def check(run, tier, seed, replay=None):
                        "first deployment / update / short cut / pull failure / load failure / unique-constrained deployment; a concurrent "
                        "writer before every request number of first deployment / update / unpause+update / unique-constrained update, "
                        "two and five of them in a row, thorough: every pair (writer before request i, err/lost fault at request j)) + random "
-                       "histories of 3-9 steps; non-trivial = at least two passes or a failing stage; distinct = per-pass tuple "
+                       "histories of 3-9 steps; Package and ClusterPackage flavour (real NewPackageController / "
+                       "NewClusterPackageController); uniqueInScope x {0,1,2} labelled peers in scope x {0,1,2} elsewhere x {0,1} strangers "
+                       "x own label, with List faults; err/lost fault at every request of first deployment and update in both flavours; "
+                       "non-trivial = at least two passes or a failing stage; distinct = per-pass tuple "
                        "(intended first failing stage, paused, hash short cut, error, requeue, ObjectDeployment empty/equals "
                        "reference render, failed requests)")
     run.cov["samples"] = [{"scenario": {k: v for k, v in scs[i].items() if k != "images"},
